@@ -21,8 +21,14 @@ from main import Result
 HEALTHY = ["a.txt", "b.txt", "c dir", "m.html", "z.bin"]
 FAULTS = ["dangling", "fifo", "socket", "vanish", "dotdot..name", "dot.\\bs", "back\\\\slash", ".dangling", ".fifo", "loop", "gone.html", "noperm.html", "dangling.pyg", "vanish.pyg", "loop.zip", "latin1-dangling",
           # FIFOs where the server looks for something to read: a link file, a side file, a .cap file (an open would wait for a writer)
-          "dot-fifo", "sidecar-fifo", "cap-fifo"]
-OPEN_FAULTS = ("gone.html", "noperm.html")     # stat succeeds, the open that follows fails (deleted in between / not readable)
+          "dot-fifo", "sidecar-fifo", "cap-fifo",
+          # ... and where it writes: a FIFO standing where the directory's cache file goes
+          "cache-fifo",
+          # unservable entries whose names hold characters that mean something to string formatting (they reach log lines)
+          "percent-dangling", "percent..name",
+          # a side file that is there for stat and cannot be opened (not ours to read)
+          "noperm-sidecar"]
+OPEN_FAULTS = ("gone.html", "noperm.html", "noperm-sidecar")     # stat succeeds, the open that follows fails (deleted in between / not readable)
 
 
 def plant(tree, d, fault):
@@ -40,6 +46,20 @@ def plant(tree, d, fault):
         os.makedirs(os.path.join(base, b".cap"), exist_ok=True)
         os.mkfifo(os.path.join(base, b".cap", b"b.txt"))
         return ".cap"
+    if fault == "cache-fifo":
+        os.mkfifo(os.path.join(base, b".cache.pygopherd.dir"))
+        return ".cache.pygopherd.dir"
+    if fault == "percent-dangling":
+        os.symlink("nowhere-to-be-found", os.path.join(base, b"budget 100%.txt"))
+        os.symlink("nowhere-to-be-found", os.path.join(base, b"%s %d %(x)s {0} {}"))
+        return "budget 100%.txt"
+    if fault == "percent..name":
+        tree.write(d + "/rate..5%s.txt", b"name the filter rejects\n")
+        return "rate..5%s.txt"
+    if fault == "noperm-sidecar":
+        tree.write(d + "/b.txt.abstract", b"an abstract the server may not read\n")
+        tree.write(d + "/c dir/.abstract", b"neither this one\n")
+        return "b.txt.abstract"
     if fault == "latin1-dangling":
         # a name that is not UTF-8: it reaches log lines and error texts as lone surrogates
         os.symlink("nowhere-to-be-found", os.path.join(base, b"caf\xe9-dangling.txt"))
@@ -104,7 +124,7 @@ class vanishing:
             p = os.fsencode(path) if not isinstance(path, int) else b""
             if p.endswith(b"/gone.html"):
                 raise FileNotFoundError(2, "No such file or directory")
-            if p.endswith(b"/noperm.html"):
+            if p.endswith(b"/noperm.html") or p.endswith(b"/b.txt.abstract") or p.endswith(b"/c dir/.abstract"):
                 raise PermissionError(13, "Permission denied")
             return builtins.open(path, *a, **k)
         hb.open = fake_open
